@@ -8,8 +8,8 @@ since the connection was made). -/
 namespace Ynca.C13
 open Ynca.L4
 
-def isModelname (l : String) : Bool :=
-  (parseLine l).subunit == some "SYS" && (parseLine l).fn == some "MODELNAME"
+/-- the line is a `SYS:MODELNAME` report -/
+abbrev isModelname := @Ynca.L4.isModelname
 
 /-- the flag is set exactly when a probe was flagged since it was last cleared -/
 theorem C13_flag_exact (P : Params) (s : St) (h : Reachable P s) :
